@@ -2,6 +2,7 @@
 package c01
 
 import (
+	"errors"
 	"bytes"
 	"context"
 	"fmt"
@@ -40,7 +41,22 @@ type msgCase struct {
 	// exchange arrives from the server (a final DONE with EOM, or an empty EOM packet) and is
 	// consumed; what has been queued so far must go out with the rest of the message all the same
 	RxAfter int `json:"response_tail_arrives_after_packages,omitempty"`
+	// FailFirst: before this message the client tried another one whose first package failed
+	// half-way through its serialisation (bytes of it are queued), gave it up with Reset()
+	FailFirst bool `json:"abandoned_attempt_first,omitempty"`
 }
+
+// halfWritten is a package of the application's own whose serialisation fails after some bytes.
+type halfWritten struct{}
+
+func (halfWritten) ReadFrom(tds.BytesChannel) error { return errors.New("not readable") }
+func (halfWritten) WriteTo(ch tds.BytesChannel) error {
+	if err := ch.WriteBytes([]byte{0xd7, 0xde, 0xad, 0xbe, 0xef}); err != nil {
+		return err
+	}
+	return errors.New("value cannot be converted")
+}
+func (halfWritten) String() string { return "halfWritten" }
 
 type c01Case struct {
 	Msgs []msgCase `json:"msgs"`
@@ -162,6 +178,16 @@ func runCase(c c01Case) (f *vh.Failure) {
 		want, err := expected(m.Pkgs, byte(mi))
 		if err != nil {
 			vh.HarnessBug("expected encoding: %v", err)
+		}
+		if m.FailFirst {
+			if err := ch.QueuePackage(ctx, halfWritten{}); err == nil {
+				return vh.Failf("C01/send-error", "message %d: QueuePackage of a package whose WriteTo fails returned nil", mi)
+			}
+			ch.Reset()
+			if n := len(pipe.Written()) - off; n != 0 {
+				return vh.Failf("C01/abandoned-message-written", "message %d: %d bytes of the abandoned attempt reached the transport", mi, n)
+			}
+			vh.Label("abandoned-attempt-before-the-message")
 		}
 		ch.CurrentHeaderType = tds.PacketHeaderType(m.HeaderType)
 		var pkgs []tds.Package
@@ -338,6 +364,7 @@ func genMsg(rt *rapid.T) msgCase {
 	} else {
 		m.HeaderType = rapid.SampledFrom([]int{15, 2, 1, 3, 13}).Draw(rt, "htypec")
 	}
+	m.FailFirst = rapid.IntRange(0, 5).Draw(rt, "failfirst") == 0
 	if rapid.IntRange(0, 4).Draw(rt, "rxmid") == 0 {
 		m.RxAfter = rapid.IntRange(1, 3).Draw(rt, "rxafter")
 	}
